@@ -58,11 +58,14 @@ func notifierPubCheck(r *vrt.Result) string {
 	case "string":
 		want["any"], want["str"] = "s", "s"
 	case "nil":
-		want["any"], want["ptr"] = "<nil>", "true"
+		want["any"], want["ptr"], want["fn"] = "<nil>", "true", "false"
+	case "cancelfunc":
+		want["fn"] = "true"
+		want["any"] = "*" // a func value: only its presence is compared
 	}
 	ctxOf := map[string]int{"any": 1, "str": 2}
 	pubCancelled := pubCancelCall != 0 // cancelled at some point: every delivery becomes optional
-	for _, name := range []string{"int", "any", "str", "ptr", "other"} {
+	for _, name := range []string{"int", "any", "str", "ptr", "fn", "other"} {
 		g := got[name]
 		w, eligible := want[name]
 		if len(g) > 1 {
@@ -74,7 +77,7 @@ func notifierPubCheck(r *vrt.Result) string {
 			}
 			continue
 		}
-		if len(g) == 1 && g[0] != w {
+		if len(g) == 1 && w != "*" && g[0] != w {
 			return fmt.Sprintf("wrong-value: subscription %q received %v, published %s", name, g, w)
 		}
 		optional := pubCancelled
